@@ -1,12 +1,18 @@
 import PorepyVerif.C14.Props
 #print axioms PorepyVerif.C14.glue_entry
 #print axioms PorepyVerif.C14.glue_eq_whole
+#print axioms PorepyVerif.C14.glue_eq_whole_vec
 #print axioms PorepyVerif.C14.glue_unowned_zero
 #print axioms PorepyVerif.C14.glueNoScale_eq_whole
 #print axioms PorepyVerif.C14.partial_fresh_rows
 #print axioms PorepyVerif.C14.partial_update_rows
 #print axioms PorepyVerif.C14.partial_update_eq_whole
+#print axioms PorepyVerif.C14.partial_update_eq_whole_specified
 #print axioms PorepyVerif.C14.l2g_maps_inverse
 #print axioms PorepyVerif.C14.mapAll_entry_of_inj
-#print axioms PorepyVerif.C14.glueAsCoded_eq_glue_of_no_shortcut
-#print axioms PorepyVerif.C14.glueAsCoded_single_identity
+#print axioms PorepyVerif.C14.glueAsCoded_eq_glue
+#print axioms PorepyVerif.C14.glueAsCoded_eq_whole
+#print axioms PorepyVerif.C14.regions_inside_of_contains_neighbours
+#print axioms PorepyVerif.C14.own_face_regions_inside
+#print axioms PorepyVerif.C14.own_cell_regions_inside
+#print axioms PorepyVerif.C14.affected_face_regions_inside
